@@ -15,3 +15,12 @@ def all_logic_names():
 def get_logic(name):
     from pytableaux.logics import registry
     return registry(name)
+
+
+def library_frame(e):
+    "'file.py:function' of the innermost pytableaux frame of an exception's traceback, or None when the library is not involved."
+    import traceback
+    for f in reversed(traceback.extract_tb(e.__traceback__)):
+        if '/pytableaux/' in f.filename:
+            return f'{f.filename.rsplit("/", 1)[-1]}:{f.name}'
+    return None
